@@ -85,7 +85,7 @@ interaction type / level count, and the back-end implements it. -/
 theorem accept_sound (b : Backend) (it : IntType) (dim : Nat) (kinds : List NoiseKind) (s : Solver)
     (k : HamKind) (h : accept b it dim kinds s = .emulate k) :
     pulserHam it dim = some k ∧ implements b s k = true := by
-  unfold accept acceptV at h
+  unfold accept acceptV acceptCore at h
   cases it with
   | other => simp [detectHam] at h
   | ising =>
@@ -151,8 +151,9 @@ theorem impl_matches_solver (s : Solver) (nOps nAtoms : Nat) (cn : Bool) (i : Im
 
 /-- From the channel bases a Pulser sequence addresses: only pure ground-rydberg and pure XY
 sequences are ever emulated, and with the matching Hamiltonian. -/
-theorem sequence_sound (b : Backend) (bases : List ChanBasis) (leak : Bool) (kinds : List NoiseKind)
-    (s : Solver) (k : HamKind) (h : acceptSequence .repaired b bases leak kinds s = some (.emulate k)) :
+theorem sequence_sound (fixed : Bool) (b : Backend) (bases : List ChanBasis) (leak : Bool)
+    (kinds : List NoiseKind) (s : Solver) (k : HamKind)
+    (h : acceptSequence .repaired fixed b bases leak kinds s = some (.emulate k)) :
     ((bases = [.groundRydberg] ∧ (k = .rydberg2 ∨ k = .rydberg3)) ∨
      (bases = [.xy] ∧ (k = .xy2 ∨ k = .xy3))) ∧ implements b s k = true := by
   unfold acceptSequence at h
@@ -170,6 +171,7 @@ theorem sequence_sound (b : Backend) (bases : List ChanBasis) (leak : Bool) (kin
       | err e => rw [hl] at h; cases h
       | ok n =>
         rw [hl] at h
+        split_ifs at h
         cases he : extractOk bases with
         | err e => rw [he] at h; cases h
         | ok u =>
@@ -192,11 +194,11 @@ theorem sequence_sound (b : Backend) (bases : List ChanBasis) (leak : Bool) (kin
               simp [pulserHam, hamKind] at hs <;> simp [← hs.1]
 
 /-- A sequence that addresses the digital basis never produces results on any back-end. -/
-theorem digital_never_emulated (b : Backend) (bases : List ChanBasis) (leak : Bool)
+theorem digital_never_emulated (fixed : Bool) (b : Backend) (bases : List ChanBasis) (leak : Bool)
     (kinds : List NoiseKind) (s : Solver) (k : HamKind) (hd : ChanBasis.digital ∈ bases) :
-    acceptSequence .repaired b bases leak kinds s ≠ some (.emulate k) := by
+    acceptSequence .repaired fixed b bases leak kinds s ≠ some (.emulate k) := by
   intro h
-  rcases (sequence_sound b bases leak kinds s k h).1 with ⟨rfl, _⟩ | ⟨rfl, _⟩ <;> simp at hd
+  rcases (sequence_sound fixed b bases leak kinds s k h).1 with ⟨rfl, _⟩ | ⟨rfl, _⟩ <;> simp at hd
 
 /-! ### The tree before the two fixes (kernel-checked counterexamples) -/
 
@@ -232,8 +234,8 @@ example : acceptSeq .repaired .mps { ham := .rydberg, dim := 2, opDims := [3], n
     .tdvp false = .raise .assertion := by decide
 example : acceptSeq .repaired .mps { ham := .xy, dim := 2, opDims := [], nAtoms := 3, nGood := 1 }
     .tdvp false = .raise .value := by decide
-example : acceptSequence .repaired .mps [.digital] false [] .tdvp = some (.raise .value) := by decide
-example : acceptSequence .repaired .mps [.xy] true [.leakage] .tdvp = some (.emulate .xy3) := by decide
+example : acceptSequence .repaired false .mps [.digital] false [] .tdvp = some (.raise .value) := by decide
+example : acceptSequence .repaired false .mps [.xy] true [.leakage] .tdvp = some (.emulate .xy3) := by decide
 example : createImpl .repaired .tdvp 2 false 2 = .ok .noisy := by decide
 
 end EmuVerif.Props.C04
